@@ -59,4 +59,12 @@ def argmax(
     proxy = numpoly.sortable_proxy(
         a, graded=options["sort_graded"], reverse=options["sort_reverse"]
     )
-    return numpy.argmax(proxy, axis=axis, out=out)
+    # the proxy is a permutation: equal elements get different ranks.  Give equal
+    # elements the same rank, so that ties resolve to the first occurrence as in numpy.
+    order = numpy.argsort(proxy.ravel())
+    ordered = a.ravel()[order]
+    fresh = numpy.ones(order.shape, dtype=bool)
+    fresh[1:] = ordered[1:] != ordered[:-1]
+    ranks = numpy.empty(order.shape, dtype=int)
+    ranks[order] = numpy.cumsum(fresh)
+    return numpy.argmax(ranks.reshape(proxy.shape), axis=axis, out=out)
